@@ -2,6 +2,7 @@ import Holpy.C02.Model
 /-
 C02 — lemmas about the Python primitives and the generated `ItemID` functions.
 -/
+set_option linter.unusedSimpArgs false
 namespace Holpy.C02
 
 theorem list_nil_or_snoc {α : Type} (l : List α) : l = [] ∨ ∃ pre x, l = pre ++ [x] := by
